@@ -203,6 +203,19 @@ theorem gmst_range (j : ℚ) : 0 ≤ mean_sidereal_time j ∧ mean_sidereal_time
   rw [mean_sidereal_time_eq]
   split_ifs <;> exact ⟨Int.fract_nonneg _, Int.fract_lt_one _⟩
 
+/-- Why `mean_sidereal_time < 1` survives binary64: the value is `x % 1` for an operand `x ≥ 0.27`, so the case in which
+    Python's float `%` returns exactly 1.0 (a tiny negative operand) cannot arise — for every JDE ≥ 0 (any rational JDE). -/
+theorem gmst_operand_at_least_027 (j : ℚ) :
+    ∃ x : ℚ, (0.27 : ℚ) ≤ x ∧ mean_sidereal_time j = Int.fract x := by
+  rw [mean_sidereal_time_eq]
+  have h := theta0_ge (ut0 j)
+  have hd := (ut0_le j).1
+  split_ifs
+  · exact ⟨_, h, rfl⟩
+  · refine ⟨_, ?_, rfl⟩
+    have : 0 ≤ (j - ut0 j) * 1.00273790935 := mul_nonneg (by linarith) (by norm_num)
+    linarith
+
 /-- "advances by 1.00273790935 turns per day": two instants of the same UT day (both at least 1e-10 day after
     its 0h, the code's threshold for "at 0h") differ by 1.00273790935 x elapsed days, up to whole turns. -/
 theorem gmst_rate (j1 j2 : ℚ) (hday : ⌊j1 - 1 / 2⌋ = ⌊j2 - 1 / 2⌋)
